@@ -238,13 +238,14 @@ class LoopCtx:
         self.kind = kind
 
     def var(self, n):
-        return self.env[n].z
+        return self.env[resolve_local(n, self.env)].z
 
     def has(self, n):
+        n = resolve_local(n, self.env)
         return n in self.env and isinstance(self.env[n], SV)
 
     def entry(self, n):
-        return self.entry_env[n].z
+        return self.entry_env[resolve_local(n, self.entry_env)].z
 
 
 _hq_cache = {}
@@ -307,6 +308,136 @@ class Obligation:
 
 
 # ---------------------------------------------------------------------------------------------
+# ---- robustness to renamed locals -------------------------------------------------------------------------------
+# Contracts name the locals of the function under proof (loop invariants, frames of local containers, static types of
+# locals).  A pure rename of a local is a harmless edit; to keep the contracts valid across it, the names of the locals
+# of every function under contract are recorded in binding order on the unchanged tree (baseline/locals.json).  When
+# the current source binds the same NUMBER of locals in the same order but under other names, the recorded names are
+# resolved to the current ones (LOCAL_ALIASES: recorded name -> current name) for the function being verified.
+LOCAL_ALIASES = {}
+
+
+def binding_order(fdef):
+    """names bound in the function body, in order of first binding (parameters first)"""
+    out = []
+
+    def add(n):
+        if n not in out:
+            out.append(n)
+
+    for a in fdef.args.posonlyargs + fdef.args.args + fdef.args.kwonlyargs:
+        add(a.arg)
+
+    def targets(t):
+        if isinstance(t, ast.Name):
+            add(t.id)
+        elif isinstance(t, (ast.Tuple, ast.List)):
+            for e in t.elts:
+                targets(e)
+        elif isinstance(t, ast.Starred):
+            targets(t.value)
+
+    class V(ast.NodeVisitor):
+        def visit_FunctionDef(self, n):
+            if n is fdef:
+                self.generic_visit(n)
+            else:
+                add(n.name)
+
+        def visit_Lambda(self, n):
+            pass
+
+        def visit_ListComp(self, n):
+            pass
+
+        visit_SetComp = visit_DictComp = visit_GeneratorExp = visit_ListComp
+
+        def visit_Assign(self, n):
+            self.visit(n.value)
+            for t in n.targets:
+                targets(t)
+
+        def visit_AugAssign(self, n):
+            self.visit(n.value)
+            targets(n.target)
+
+        def visit_AnnAssign(self, n):
+            if n.value is not None:
+                self.visit(n.value)
+            targets(n.target)
+
+        def visit_For(self, n):
+            self.visit(n.iter)
+            targets(n.target)
+            for st in n.body + n.orelse:
+                self.visit(st)
+
+        def visit_With(self, n):
+            for it in n.items:
+                self.visit(it.context_expr)
+                if it.optional_vars is not None:
+                    targets(it.optional_vars)
+            for st in n.body:
+                self.visit(st)
+
+        def visit_NamedExpr(self, n):
+            self.visit(n.value)
+            targets(n.target)
+
+    V().visit(fdef)
+    return out
+
+
+def set_local_aliases(qname, fdef, recorded):
+    """recorded: the binding order on the unchanged tree (or None). Fills LOCAL_ALIASES for a pure rename."""
+    LOCAL_ALIASES.clear()
+    if not recorded:
+        return
+    cur = binding_order(fdef)
+    if len(cur) != len(recorded) or cur == recorded:
+        return
+    m = {}
+    for old, new in zip(recorded, cur):
+        if old != new:
+            if old in cur or new in recorded:
+                return  # not a pure rename (names swapped / reused): fall back to the names as written
+            m[old] = new
+    LOCAL_ALIASES.update(m)
+
+
+def alias_text(text):
+    """a statement prefix written with the recorded names of locals, re-written with their current names"""
+    if not LOCAL_ALIASES:
+        return text
+    import re
+
+    return re.sub(r"(?<![\w.])(%s)(?!\w)" % "|".join(re.escape(k) for k in LOCAL_ALIASES), lambda m: LOCAL_ALIASES[m.group(1)], text)
+
+
+def resolve_local(name, env):
+    if name in dict.keys(env) if isinstance(env, dict) else name in env:
+        return name
+    return LOCAL_ALIASES.get(name, name)
+
+
+class AliasEnv(dict):
+    """the top-level frame's locals; lookups by a recorded (pre-rename) name resolve to the current name"""
+
+    def _k(self, k):
+        if dict.__contains__(self, k):
+            return k
+        return LOCAL_ALIASES.get(k, k)
+
+    def __getitem__(self, k):
+        return dict.__getitem__(self, self._k(k))
+
+    def get(self, k, default=None):
+        return dict.get(self, self._k(k), default)
+
+    def __contains__(self, k):
+        return dict.__contains__(self, self._k(k))
+
+
 class Frame:
     def __init__(self, qname, fdef, cls, env, modname):
         self.qname = qname
@@ -743,7 +874,7 @@ class Run:
         if name in (
             "len", "min", "max", "abs", "int", "round", "isinstance", "type", "str", "float", "sum", "any", "all",
             "sorted", "list", "set", "dict", "tuple", "range", "enumerate", "zip", "hasattr", "id", "hash", "bool",
-            "copy", "deepcopy", "filter", "map", "next", "iter", "print", "repr", "defaultdict", "reversed",
+            "copy", "deepcopy", "filter", "map", "next", "iter", "print", "repr", "defaultdict", "reversed", "deque",
             "attrgetter", "partial",
         ):
             imp = module_imports(modname).get(name)
@@ -1556,6 +1687,11 @@ class Run:
             return SV(T.INT, H.fresh(name, H.I))
         if name in ("list", "set", "dict") and not args:
             return EmptyContainer(name)
+        if name == "deque":
+            # collections.deque used as a FIFO work list: modelled as a list (append at the right, popleft = pop(0))
+            if not args or (isinstance(args[0], PyTuple) and not args[0].items) or isinstance(args[0], EmptyContainer):
+                return EmptyContainer("list")
+            raise Reject("deque(non-empty iterable)")
         if name == "list":
             (v,) = args
             if isinstance(v, PyTuple):
@@ -1935,6 +2071,8 @@ class Run:
                 return self.list_remove(c, args[0])
             if name == "pop":
                 return self.list_pop(c, args[0] if args else None)
+            if name == "popleft":  # a deque modelled as a list
+                return self.list_pop(c, mk_int(0))
             if name == "extend":
                 return self.list_extend(c, args[0])
             raise Reject("list.%s" % name)
@@ -2234,13 +2372,13 @@ class Run:
         if c is not None and c.drops:
             src = ast.unparse(s)
             for d in c.drops:
-                if src.startswith(d):
+                if src.startswith(d) or (self.depth == 0 and src.startswith(alias_text(d))):
                     self.dropped.append(src[:80])
                     return
         if c is not None and getattr(c, "at", None) and self.depth == 0:
             src = ast.unparse(s)
             for prefix, fn in c.at.items():
-                if src.startswith(prefix):
+                if src.startswith(prefix) or src.startswith(alias_text(prefix)):
                     cc = Ctx(self.v.entry_args, self.v.pre_heap, self.heap, run=self, alloc0=self.v.alloc_entry)
                     for nm, g in _named(fn(cc, LoopCtx(None, None, fr.env, fr.env, self.heap, "at")), "at"):
                         self.oblige("at.%s" % nm, g, site="at:" + prefix[:40], kind="at")
@@ -2252,6 +2390,16 @@ class Run:
 
     def st_Pass(self, s):
         pass
+
+    def st_FunctionDef(self, s):
+        """a local helper `def f(x): return <expr>` (optionally with a docstring) is a named lambda"""
+        body = [st for st in s.body if not (isinstance(st, ast.Expr) and isinstance(st.value, ast.Constant) and isinstance(st.value.value, str))]
+        if len(body) != 1 or not isinstance(body[0], ast.Return) or body[0].value is None or s.decorator_list or s.args.vararg or s.args.kwarg or s.args.kwonlyargs or s.args.defaults:
+            raise Reject("nested function %s (only a single-return helper is in the subset)" % s.name)
+        lam = ast.Lambda(args=s.args, body=body[0].value)
+        ast.copy_location(lam, s)
+        ast.fix_missing_locations(lam)
+        self.frames[-1].env[s.name] = LambdaVal(lam, dict(self.frames[-1].env), self)
 
     def st_Expr(self, s):
         if isinstance(s.value, ast.Constant):
@@ -2416,10 +2564,15 @@ class Run:
         if isinstance(target, ast.Name):
             c_ = CONTRACTS.get(fr.qname)
             lt = getattr(c_, "locals", None) if c_ is not None else None
-            if lt and target.id in lt and (isinstance(v, (EmptyContainer, PyTuple)) or (isinstance(v, SV) and v.ty != lt[target.id])):
+            lk = target.id
+            if lt and lk not in lt and self.depth == 0:
+                for old_, new_ in LOCAL_ALIASES.items():
+                    if new_ == lk and old_ in lt:
+                        lk = old_  # the local was renamed: its declared type is recorded under the old name
+            if lt and lk in lt and (isinstance(v, (EmptyContainer, PyTuple)) or (isinstance(v, SV) and v.ty != lt[lk])):
                 # a declared static type of a local: container literals become containers of that type, and a local that
                 # holds None or a value (Optional[...]) is kept at its declared optional type on every path
-                v = self.coerce(v, lt[target.id])
+                v = self.coerce(v, lt[lk])
             fr.env[target.id] = v
             return
         if isinstance(target, (ast.Tuple, ast.List)):
